@@ -273,9 +273,9 @@ def rule_r5(repo):
 
 def run(repo, check):
     from sa.rules import c04, c19
-    check.add(rule_r1(repo, check.tier))
-    check.add(rule_r2(repo))
-    check.add(rule_r3(repo))
+    check.run_rule(rule_r1, repo, check.tier)
+    check.run_rule(rule_r2, repo)
+    check.run_rule(rule_r3, repo)
     r4 = c04.rule_padding_zero(repo, 'C02.R4')
     check.add(r4)
     r4b = c19.rule_r6(repo)
@@ -283,7 +283,7 @@ def run(repo, check):
     for f in r4b.findings:
         f.rule = 'C02.R4b'
     check.add(r4b)
-    check.add(rule_r5(repo))
+    check.run_rule(rule_r5, repo)
     check.assumptions = ['bitstring writes an n-bit unsigned field MSB first and refuses values that do not fit (trusted base)',
                          'byte identity with an independent encoder is a runtime fact and is not decided; the rules decide that the encoder '
                          'and the decoder agree on every field sequence and that the arithmetic is the FM-94 one']
